@@ -28,6 +28,7 @@ type RunConfig struct {
 	Budget   time.Duration
 	Workers  int
 	MaxRuns  int64 // >0: run exactly this many histories (ignores the budget); used by the determinism test
+	From     int64 // first run index (debugging aid; default 0)
 	LogHash  bool
 	RaceBin  string // path of the -race stress binary ("" = next to this executable)
 	NoRace   bool
@@ -62,6 +63,7 @@ type aggregate struct {
 	found     map[int64]*foundViolation // looked up by key only
 	internal  error
 	swarmSeen [7]int64 // histories per client count (index = clients)
+	from      int64
 }
 
 func (a *aggregate) add(idx int64, spec RunSpec, sw Swarm, res *ExecResult) {
@@ -104,7 +106,7 @@ func (a *aggregate) add(idx int64, spec RunSpec, sw Swarm, res *ExecResult) {
 	if res.Violation != nil {
 		a.found[idx] = &foundViolation{run: idx, spec: spec, schedule: res.Schedule, v: *res.Violation}
 	}
-	if idx < 3 {
+	if idx < a.from+3 {
 		result := "ok"
 		if res.Violation != nil {
 			result = "violation:" + res.Violation.Kind
@@ -302,8 +304,10 @@ func RunTier(cfg RunConfig) int {
 		go func() { raceCh <- runRaceSubprocess(raceBin, args, stopRace) }()
 	}
 
-	agg := &aggregate{distinct: map[uint64]struct{}{}, pending: map[int64][32]byte{}, hasher: sha256.New(), found: map[int64]*foundViolation{}}
+	agg := &aggregate{distinct: map[uint64]struct{}{}, pending: map[int64][32]byte{}, hasher: sha256.New(), found: map[int64]*foundViolation{}, from: cfg.From}
 	var ctr atomic.Int64
+	ctr.Store(cfg.From)
+	agg.nextIdx = cfg.From
 	var stopIdx atomic.Int64
 	stopIdx.Store(1 << 62)
 	var internalStop atomic.Bool
@@ -321,7 +325,7 @@ func RunTier(cfg RunConfig) int {
 					return
 				}
 				idx := ctr.Add(1) - 1
-				if (cfg.MaxRuns > 0 && idx >= cfg.MaxRuns) || idx > stopIdx.Load() {
+				if (cfg.MaxRuns > 0 && idx >= cfg.From+cfg.MaxRuns) || idx > stopIdx.Load() {
 					return
 				}
 				rng := NewRNG(cfg.Seed, idx)
@@ -347,7 +351,7 @@ func RunTier(cfg RunConfig) int {
 
 	// the lowest-index violation is the one reported (independent of worker timing)
 	var first *foundViolation
-	for i := int64(0); i < ctr.Load(); i++ {
+	for i := cfg.From; i < ctr.Load(); i++ {
 		if f, ok := agg.found[i]; ok {
 			first = f
 			break
@@ -518,7 +522,7 @@ func writeEvidence(cfg RunConfig, agg *aggregate, race raceOutcome, violations i
 	st := agg.stats
 	var samples []interface{}
 	// samples arrive in completion order; emit them by run index
-	for want := int64(0); want < 3; want++ {
+	for want := cfg.From; want < cfg.From+3; want++ {
 		for _, s := range agg.samples {
 			if s.Run == want {
 				samples = append(samples, s)
